@@ -14,7 +14,12 @@ import (
 // report on the video control channel. Each packet is unique (sequence number,
 // body bytes), so a receiver's list can be matched by content. It returns at
 // least n frames.
-func SimpleFrames(n int, audio bool) []Frame {
+func SimpleFrames(n int, audio bool) []Frame { return SimpleFramesStep(n, audio, 3000) }
+
+// SimpleFramesStep is SimpleFrames with a chosen RTP timestamp step per access
+// unit (90 kHz ticks), e.g. 45000 for half-second frames that fill HLS segments
+// quickly.
+func SimpleFramesStep(n int, audio bool, step uint32) []Frame {
 	var out []Frame
 	seq, aseq := uint16(65530), uint16(100) // the video sequence number wraps early
 	ts, ats := uint32(900000), uint32(44100)
@@ -50,7 +55,7 @@ func SimpleFrames(n int, audio bool) []Frame {
 		if au%3 == 2 {
 			out = append(out, Frame{Track: 0, Control: true, Data: rtppack.SenderReport(0x0A0B0C00, 3900000000, uint32(au), ts, uint32(au), uint32(au)*100)})
 		}
-		ts += 3000
+		ts += step
 		au++
 	}
 	return out
